@@ -30,6 +30,10 @@ class Boom(Exception):
     pass
 
 
+class BaseBoom(BaseException):
+    """Like KeyboardInterrupt / CancelledError: not an Exception subclass."""
+
+
 class Info(object):
     """Per-generator bookkeeping shared between harness and body."""
 
@@ -150,7 +154,7 @@ def make_gen(kind, info, decorate, ret):
             with info.action("g:c"):
                 try:
                     info.received.append((yield "c1"))
-                except Boom as e:
+                except (Boom, BaseBoom) as e:
                     info.received.append(("caught", e))
                     info.check("in the except block")
                     info.msg()
@@ -168,7 +172,7 @@ def outcome(fn):
         return ("stop", s.value)
     except GeneratorExit as e:
         return ("genexit", None)
-    except Boom as e:
+    except (Boom, BaseBoom) as e:
         return ("raised", e)
 
 
@@ -205,7 +209,7 @@ def body_E1(ctx):
         if k == 0:
             break
         g = live[k - 1]
-        op = ["next", "send", "throw", "close", "send-exception-object"][ctx.choose(5, "op")]
+        op = ["next", "send", "throw", "close", "send-exception-object", "throw-base-exception"][ctx.choose(6, "op")]
         d = drivers[ctx.choose(len(drivers), "driver context")]
         info = g["info"]
         payload = ("sent", step)
@@ -213,6 +217,7 @@ def body_E1(ctx):
         if op in ("send", "send-exception-object") and not g["started"]:
             op = "next"  # a just-created generator only accepts None
         as_value = Boom("sent as a value %d" % step)
+        base_exc = BaseBoom("thrown %d" % step)
 
         def do(gen):
             if op == "next":
@@ -223,6 +228,8 @@ def body_E1(ctx):
                 return gen.send(as_value)  # an exception instance is a value like any other
             if op == "throw":
                 return gen.throw(exc)
+            if op == "throw-base-exception":
+                return gen.throw(base_exc)
             return gen.close()
 
         def step_fn():
@@ -362,11 +369,11 @@ OBLIGATIONS = [
         E1,
         body_E1,
         "X",
-        desc="driver schedules over 2 decorated generators x 4 body kinds x {next,send,send(exception object),throw,close} x 3 driver contexts: own context inside, driver context untouched, outcomes equal an undecorated twin's",
+        desc="driver schedules over 2 decorated generators x 4 body kinds x {next,send,send(exception object),throw,throw(BaseException),close} x 3 driver contexts: own context inside, driver context untouched, outcomes equal an undecorated twin's",
         functions=["eliot_friendly_generator_function", "Action.__enter__/__exit__", "start_action", "log_message", "current_action"],
         shards=_shards,
         twin=[{"gens": 2, "steps": 2, "contexts": 3, "twin_label": "switching"}],
         timeout={"quick": 100, "thorough": 1500},
-        bounds={"quick": "2 generators (4 body kinds each) x <= 2 driver steps, and 1 generator x <= 3 steps; each step: any live generator x 5 operations x 3 driver contexts", "thorough": "2 generators x <= 3 steps and 1 generator x <= 4 steps with 2 driver contexts; 2 generators x 2 steps with 3 contexts"},
+        bounds={"quick": "2 generators (4 body kinds each) x <= 2 driver steps, and 1 generator x <= 3 steps; each step: any live generator x 6 operations x 3 driver contexts", "thorough": "2 generators x <= 3 steps and 1 generator x <= 4 steps with 2 driver contexts; 2 generators x 2 steps with 3 contexts"},
     ),
 ]
